@@ -8,6 +8,7 @@ import Tbx.Proofs.FlowEKTotal
 import Tbx.Model.Flow
 import Tbx.Model.FlowDinic
 import Tbx.Model.FlowLegacy
+import Tbx.Model.FlowGeneric
 /-
 C01 — every max-flow solver returns the true maximum s-t flow value.
 
@@ -364,6 +365,31 @@ theorem solvers_return_maxflow (es : List Edge) (s t : Nat) (hnn : ∀ e, e ∈ 
   refine ⟨d'.maxFlow, _, d', ek, ff, m1, hd, h1, o1, h2, ?_, h3, ?_⟩
   · rw [o2, maxFlowValue_unique m2 m1]
   · rw [o3, maxFlowValue_unique m3 m1]
+
+/-- **the generic constructor**: `from_generic_edge_list` with ANY capacity closure `f` whose values on
+    the given payloads are non-negative yields solvers that return the maximum flow of the capacities
+    `f(payload)` — in particular edges with payload ≤ 0 count with capacity `f(payload)` -/
+theorem generic_constructor_maxflow (f : Int → Int) (es : List Edge) (s t : Nat)
+    (hnn : ∀ e, e ∈ es → 0 ≤ f e.cap) (hst : s ≠ t)
+    (hs : s < nNodes ((mapCaps f es).map toE)) (ht : t < nNodes ((mapCaps f es).map toE))
+    (hN : nNodes ((mapCaps f es).map toE) + 2 < INV) :
+    ∃ (x : ℤ) (d d' : Dinic) (ek ff : Solver),
+      IsMaxFlowValue (cF ((mapCaps f es).map toE) (nNodes ((mapCaps f es).map toE))) ⟨s, hs⟩ ⟨t, ht⟩ x ∧
+      Dinic.fromGenericEdgeList f es s t = some d ∧
+      d.run (((mapCaps f es).map Edge.cap).sum.toNat + 2) = some d' ∧ d'.maxFlow? = .ok x ∧
+      (Solver.fromGenericEdgeList f es s t).runEK (((mapCaps f es).map Edge.cap).sum.toNat + 2) = some ek ∧
+      ek.maxFlow? = .ok x ∧
+      (Solver.fromGenericEdgeList f es s t).runFF (((mapCaps f es).map Edge.cap).sum.toNat + 2) = some ff ∧
+      ff.maxFlow? = .ok x :=
+  solvers_return_maxflow (mapCaps f es) s t
+    (fun e he => by
+      obtain ⟨x, hx, rfl⟩ := List.mem_map.mp he
+      exact hnn x hx) hst hs ht hN
+
+/-- the closures of the harness on payloads that include 0 and negatives -/
+example : (mapCaps (genCap 2) [⟨0,1,-7⟩, ⟨1,2,-2⟩, ⟨0,2,0⟩]).map Edge.cap = [7, 2, 0] ∧
+    (mapCaps (genCap 0) [⟨0,1,0⟩, ⟨1,2,-3⟩]).map Edge.cap = [1, 1] ∧
+    (mapCaps (genCap 3) [⟨0,1,-5⟩, ⟨1,2,0⟩, ⟨0,2,-3⟩]).map Edge.cap = [3, 3, 5] := by decide
 
 example : nNodes (d1Edges.map toE) = 5 ∧ (d1Edges.map Edge.cap).sum.toNat + 2 = 55 := by decide
 
